@@ -166,6 +166,7 @@ func (s *state) walk(node ast.Node) {
 		}
 	case *ast.SwitchNode:
 		var switchValue = s.eval(node.Value)
+		var defaultCase *ast.SwitchCaseNode
 		for _, caseNode := range node.Cases {
 			for _, caseValueNode := range caseNode.Values {
 				if switchValue.Equals(s.eval(caseValueNode)) {
@@ -173,10 +174,13 @@ func (s *state) walk(node ast.Node) {
 					return
 				}
 			}
-			if len(caseNode.Values) == 0 { // default/last case
-				s.walkBlock(caseNode.Body)
-				return
+			// the default case applies when no case matches, wherever it is written.
+			if len(caseNode.Values) == 0 && defaultCase == nil {
+				defaultCase = caseNode
 			}
+		}
+		if defaultCase != nil {
+			s.walkBlock(defaultCase.Body)
 		}
 	case *ast.CallNode:
 		s.evalCall(node)
